@@ -382,9 +382,9 @@ class Gen:
                     e, t = self.fresh_one(sc)
                     out.append(["let", nm, e])
                     sc["names"][nm] = "tmpbit" if t == "bit" else "tmpbool"
-            elif r < 0.84 and sc["scope_top"]:
+            elif r < 0.87 and sc["scope_top"]:
                 out += self.snapshot(sc)
-            elif r < 0.88 and sc["scope_top"]:
+            elif r < 0.90 and sc["scope_top"]:
                 self.ntmp += 1
                 nm = f"r{self.ntmp}"
                 a = rng.choice(["arr", "va"])
@@ -397,13 +397,13 @@ class Gen:
                     out.append(["as", "v", ["obj", "vi"], ["add", ["obj", "vi"], ["c", rng.choice([1, 2, 3]), 2]], rng.choice(["op", "prop"])])
                     out.append(["as", "v" if a == "va" else "n", ["name", nm], self.expr8(sc), "op"])
                     self.stat("index-operand-changed-after-access")
-            elif r < 0.90 and sc["scope_top"] and sc["main"] and self.nloc < 2:
+            elif r < 0.915 and sc["scope_top"] and sc["main"] and self.nloc < 2:
                 nm = f"loc{self.nloc}"
                 self.stat("local-signal")
                 out.append(["decl", nm, LOC_BASE + self.nloc, self.expr8(sc, allow_const=False)])
                 self.nloc += 1
                 sc["names"][nm] = "locsig"
-            elif r < 0.925 and sc["scope_top"] and sc["main"]:
+            elif r < 0.935 and sc["scope_top"] and sc["main"]:
                 self.ntmp += 1
                 nm = f"a{self.ntmp}"
                 if rng.random() < 0.6 or self.alwq:
@@ -1357,13 +1357,19 @@ def run(ctx: Ctx):
         cb = (cseqs[0], 0, "-", f"cannot execute: {e}")
     CHAINS_OK[0] = cb is None
     ctx.case(key=csrc, nontrivial=True, kind="law:bool-cast-chain")
+    chain_known = False
     if cb is not None:
-        ctx.report(CHAIN_SIGNATURE,
+        # ctx.report returns False when the failure is a listed known finding (KNOWN-FINDING line, not a violation)
+        chain_known = ctx.report(CHAIN_SIGNATURE,
                    f"`m = bool(x == y); if m:` / `k = bool(bool(c0 or c1)); b2 <<= k`: the emitted process reads a temporary that is never "
                    f"assigned (clock {cb[1]}: {describe(cb[2], cb[3]) if cb[2] != '-' else cb[3]})",
                    {"design": cd, "source": csrc, "stmt": csx, "inputs": cb[0], "clock": cb[1], "observed_objects": ALL_OBS,
-                    "expected": cb[2], "observed": cb[3], "vhdl": cc[1]["vhdl"]})
-    ctx.obligation("cast chains: bool(bool(..)) / bool(compare) used in a boolean context behave like the captured value", cb is None)
+                    "expected": cb[2], "observed": cb[3], "vhdl": cc[1]["vhdl"]}) is False
+    ctx.obligation("cast chains: bool(bool(..)) / bool(compare) used in a boolean context behave like the captured value",
+                   cb is None or chain_known,
+                   detail=("holds; cast chains are part of the generated designs" if cb is None else
+                           "FAILS on the fixed design - listed known finding " + CHAIN_SIGNATURE + "; cast chains are kept out of the generated designs"
+                           if chain_known else "FAILS on the fixed design"))
     ctx.extra["cast_chains_generated"] = CHAINS_OK[0]
 
     fixed = fixed_designs()
